@@ -45,7 +45,7 @@ MANIFEST = {
             "listColumn_spec, optIntColumn_spec, crAdjust_crlf, kline_roles, fasta_wrapped_join (records with any number of lines, none "
             "included), commentTable_spec (comment lines anywhere, with or without TABs, never become entries), sam_extra / "
             "sam_rows_spec (whole buffer: first 11 fields + rest of line = remaining fields joined by TAB), "
-            "info_subfields_spec / info_lookup_partial / infoLookup_none_iff (fails exactly on a duplicated key), infoFlag_iff / info_key_family (keys are compared by their whole name: a row holding only longer relatives DBX, DBSNP=.. of DB reads as DB absent), genotype_triplets (all 32 "
+            "info_subfields_spec / info_lookup_partial / infoLookup_none_iff (fails exactly on a duplicated key), info_relatives_irrelevant / infoFlag_only_name / info_key_family (keys are compared by their whole name: in any row, removing the longer relatives DBX, DBSNP=.. of DB changes neither the lookup nor the flag of DB; a row of relatives only reads as DB absent), genotype_triplets (all 32 "
             "genotypes, int8 wrap included), fasta_seqLens, vcf_pos; characterisations in plain List/Nat terms: delimsFrom_mem_iff / "
             "delimsFrom_sorted (the delimiter array is exactly the increasing list of delimiter positions), splitOn_length, "
             "linesOf_length, chunkF_flatten_take (reshape only regroups), fieldTable_ok_iff (the table is built exactly for buffers whose "
